@@ -11,6 +11,14 @@ import (
 	"fmt"
 	"math/rand"
 	"os"
+	"sync"
+	"sync/atomic"
+	"time"
+
+	"github.com/kardiachain/go-kardia/blockchain"
+	"github.com/kardiachain/go-kardia/mainchain/tx_pool"
+	bcproto "github.com/kardiachain/go-kardia/proto/kardiachain/blockchain"
+	prototx "github.com/kardiachain/go-kardia/proto/kardiachain/txpool"
 
 	cstypes "github.com/kardiachain/go-kardia/consensus/types"
 
@@ -86,7 +94,15 @@ func (rn *Runner) advance(r *rand.Rand, steps int) {
 		rn.e.Net.AdvStep(r, nil)
 	}
 	if rn.e.V.Dead {
+		// the node died while handling honest traffic after attacker sessions: a delayed effect
 		rn.broken = true
+		fs := capture.takeFailures()
+		frame, errs, stack := "no-failure-record", rn.e.V.DeadWhy, ""
+		if len(fs) > 0 {
+			frame, errs, stack = frameKey(skipToPanic(fs[0].Stack)), fs[0].Err, firstLines(skipToPanic(fs[0].Stack), 30)
+		}
+		rn.c.Violation("consensus-loop-dead:consensus:delayed:"+frame, "the consensus loop terminated while the network advanced after attacker sessions: "+short(errs, 200),
+			map[string]interface{}{"env": rn.envDesc, "recent_sessions": rn.recent, "stack": stack})
 		return
 	}
 	rn.describe()
@@ -97,9 +113,20 @@ var _ = cstypes.RoundStepNewHeight
 func Main() {
 	r := core.Start("C18", "exploration")
 	r.SetRule("evaluation = one message handed to Reactor.Receive of a reactor built as in production around a live node (4-validator simulated network; victim caught up at some consensus step, or fast-syncing), sent by a stub peer connected through the real switch; non-trivial = a mutated message (distinct reactor, type, mutation, peer-state prelude) that passed decoding and validation, i.e. reached the handler with live state instead of being rejected at the door")
-	if os.Getenv("C18_ONLY") == "" || os.Getenv("C18_ONLY") == "cons" {
+	only := os.Getenv("C18_ONLY")
+	if only == "" || only == "cons" {
 		consCorpus(r)
 		consRandom(r)
+	}
+	if only == "" || only == "other" {
+		otherCorpus(r)
+		otherRandom(r)
+	}
+	if only == "" || only == "race" {
+		fetchRace(r)
+	}
+	if only == "" || only == "mconn" {
+		mconnGroup(r)
 	}
 	r.Floor("messages", 1000)
 	r.Floor("mutants_accepted", 100)
@@ -107,7 +134,7 @@ func Main() {
 	r.Finish()
 }
 
-var corpusEnvs = []envSpec{{"caughtup", 3, 0}, {"caughtup", 3, 14}, {"syncing", 3, 0}}
+var corpusEnvs = []envSpec{{"caughtup", 3, 0}, {"caughtup", 3, 14}, {"caughtup", 0, 0}, {"syncing", 3, 0}}
 
 // consCorpus: every structural mutation of every consensus message type, under every
 // peer-state prelude, in three node states.
@@ -155,9 +182,9 @@ func consCorpus(r *core.Run) {
 func consRandom(r *core.Run) {
 	r.Cases("cons-random", r.N(32, 1600), childOpts, func(c *core.Case) {
 		rg := c.R
-		spec := envSpec{Mode: "caughtup", Height: uint64(2 + rg.Intn(3)), Stage: rg.Intn(30)}
+		spec := envSpec{Mode: "caughtup", Height: uint64([]int{0, 2, 2, 3, 3, 4}[rg.Intn(6)]), Stage: rg.Intn(30)}
 		if rg.Intn(4) == 0 {
-			spec.Mode = "syncing"
+			spec = envSpec{Mode: "syncing", Height: uint64(2 + rg.Intn(3))}
 		}
 		rn := open(c, spec)
 		if rn == nil {
@@ -207,4 +234,285 @@ func consRandom(r *core.Run) {
 			rn.Session(variant, sess)
 		}
 	})
+}
+
+// ---------------------------------------------------------------- the other reactors
+
+type otherCase struct {
+	Spec    envSpec
+	Reactor string
+	Kind    string
+}
+
+func otherCorpusCases() []otherCase {
+	var out []otherCase
+	for _, spec := range []envSpec{{"caughtup", 3, 0}, {"syncing", 6, 0}} {
+		for _, re := range otherReactors {
+			for _, k := range otherKinds[re] {
+				out = append(out, otherCase{spec, re, k})
+			}
+		}
+	}
+	return out
+}
+
+// otherPrelude: what makes the reactor listen to this peer (announced status for block sync, an
+// outstanding address request for PEX: the runner connects the peer as an outbound one).
+func (rn *Runner) otherPrelude(l *live, reactor string, r *rand.Rand) []Msg {
+	rn.outbound = false
+	rn.settle = 0
+	switch reactor {
+	case "pex":
+		rn.outbound = r.Intn(4) != 0
+	case "blocksync":
+		rn.settle = 3 * time.Millisecond
+		if r.Intn(2) == 0 {
+			if m, ok := l.validOtherMsg("blocksync", "StatusResponse", r); ok {
+				return []Msg{m}
+			}
+		}
+	case "txpool":
+		rn.settle = time.Millisecond
+	}
+	return nil
+}
+
+// otherCorpus: every structural mutation of every message type of the block-sync,
+// transaction-pool, evidence and PEX reactors, caught up and syncing.
+func otherCorpus(r *core.Run) {
+	cases := otherCorpusCases()
+	r.Cases("other-corpus", len(cases), childOpts, func(c *core.Case) {
+		oc := cases[c.I]
+		rn := open(c, oc.Spec)
+		if rn == nil {
+			return
+		}
+		defer func() { rn.e.Close() }()
+		l := snapshot(rn.e)
+		cnt := l.countOther(oc.Reactor, oc.Kind, c.R)
+		rebuilds := 0
+		for k := 0; k < cnt; k++ {
+			m, ok := l.protoMutantOther(oc.Reactor, oc.Kind, k, c.R, true)
+			if !ok {
+				continue
+			}
+			sess := append(rn.otherPrelude(l, oc.Reactor, c.R), m)
+			if v, ok := l.validOtherMsg(oc.Reactor, oc.Kind, c.R); ok {
+				sess = append(sess, v) // the same peer goes on with a well-formed message
+			}
+			if !rn.Session("-", sess) {
+				rebuilds++
+				if rebuilds > 40 || !rn.reopen(oc.Spec) {
+					return
+				}
+				l = snapshot(rn.e)
+			}
+		}
+	})
+}
+
+func otherRandom(r *core.Run) {
+	r.Cases("other-random", r.N(32, 1600), childOpts, func(c *core.Case) {
+		rg := c.R
+		spec := envSpec{Mode: "caughtup", Height: uint64([]int{0, 2, 3, 4}[rg.Intn(4)]), Stage: rg.Intn(20)}
+		if rg.Intn(3) == 0 {
+			spec = envSpec{Mode: "syncing", Height: uint64(3 + rg.Intn(5))}
+		}
+		rn := open(c, spec)
+		if rn == nil {
+			return
+		}
+		defer func() { rn.e.Close() }()
+		rebuilds := 0
+		for s := 0; s < 100; s++ {
+			if s%8 == 7 {
+				rn.advance(rg, 1+rg.Intn(6))
+			}
+			if rn.broken {
+				rebuilds++
+				if rebuilds > 8 || !rn.reopen(spec) {
+					return
+				}
+			}
+			l := snapshot(rn.e)
+			reactor := otherReactors[rg.Intn(len(otherReactors))]
+			if spec.Mode == "syncing" && reactor == "blocksync" && rg.Intn(2) == 0 {
+				rn.SyncSession(l, rg)
+				continue
+			}
+			sess := rn.otherPrelude(l, reactor, rg)
+			for j, nm := 0, 1+rg.Intn(3); j < nm; j++ {
+				ks := otherKinds[reactor]
+				kind := ks[rg.Intn(len(ks))]
+				var m Msg
+				var good bool
+				switch x := rg.Intn(10); {
+				case x < 4:
+					m, good = l.goMutantOther(reactor, kind, rg)
+				case x < 7:
+					if cnt := l.countOther(reactor, kind, rg); cnt > 0 {
+						m, good = l.protoMutantOther(reactor, kind, rg.Intn(cnt), rg, true)
+					}
+				case x < 9:
+					m, good = l.bytesMutantOther(reactor, kind, rg)
+				default:
+					m, good = l.validOtherMsg(reactor, kind, rg)
+				}
+				if good {
+					sess = append(sess, m)
+				}
+			}
+			rn.Session("-", sess)
+		}
+	})
+}
+
+// SyncSession: an attacker that serves the chain. It announces the chain height, waits
+// for the node's block requests and answers them with mutated (sometimes genuine) blocks.
+func (rn *Runner) SyncSession(l *live, r *rand.Rand) bool {
+	defer atomic.StoreInt32(&formatLogs, 0)
+	e := rn.e
+	if e.Cons.WaitSync() == false {
+		rn.run.Count("sync_sessions_skipped_node_left_sync_mode", 1)
+		rn.broken = true
+		return false
+	}
+	rn.outbound, rn.settle = true, 45*time.Millisecond
+	st, ok := l.validOtherMsg("blocksync", "StatusResponse", r)
+	if !ok {
+		return true
+	}
+	sess := []Msg{st}
+	peer := rn.begin("sync", sess)
+	if peer == nil {
+		return false
+	}
+	if !rn.deliver(peer, "sync", sess, 0) {
+		return false
+	}
+	// the scheduler asks every 20 ms
+	var heights []uint64
+	deadline := time.Now().Add(400 * time.Millisecond)
+	for len(heights) == 0 && time.Now().Before(deadline) {
+		for _, o := range peer.takeOut() {
+			if o.Ch != blockchain.BlockchainChannel {
+				continue
+			}
+			if m, err := blockchain.DecodeMsg(o.Bytes); err == nil {
+				if rq, ok := m.(*bcproto.BlockRequest); ok {
+					heights = append(heights, rq.Height)
+				}
+			}
+		}
+		if len(heights) == 0 {
+			time.Sleep(2 * time.Millisecond)
+		}
+	}
+	rn.run.Count("block_requests_seen", len(heights))
+	last := 0
+	for i, h := range heights {
+		if i >= 3 || !peer.BaseService.IsRunning() {
+			break
+		}
+		bp := l.blockPB(h)
+		if bp == nil {
+			continue
+		}
+		pb := &bcproto.Message{Sum: &bcproto.Message_BlockResponse{BlockResponse: &bcproto.BlockResponse{Block: bp}}}
+		label := "genuine block"
+		if r.Intn(5) != 0 {
+			label = ApplyMutation(pb, r.Intn(CountMutations(pb)), r)
+		}
+		b := marshal(pb)
+		if b == nil {
+			continue
+		}
+		sess = append(sess, Msg{Ch: blockchain.BlockchainChannel, Kind: "BlockResponse", Mut: fmt.Sprintf("solicited, height %d: %s", h, label), Level: "proto", Bytes: b, Subject: true})
+		last = len(sess) - 1
+		rn.resetChildLog("sync", sess)
+		rn.run.Count("solicited_block_responses", 1)
+		if !rn.deliver(peer, "sync", sess, last) {
+			return false
+		}
+	}
+	return rn.finish(peer, "sync", sess, last)
+}
+
+// fetchRace: peers announce unknown transactions and all disconnect at the moment the
+// fetcher's arrival timeout (500 ms, wall clock) expires, while the
+// fetcher loop is busy with a large announcement of another peer. A peer that has
+// been unregistered by the reactor but not yet dropped by the fetcher loop is then
+// asked for the transactions (the fetch runs in a goroutine without recover).
+func fetchRace(r *core.Run) {
+	r.Cases("txpool-fetch-race", r.N(16, 160), childOpts, func(c *core.Case) {
+		rn := open(c, envSpec{Mode: "caughtup", Height: 2})
+		if rn == nil {
+			return
+		}
+		defer func() { rn.e.Close() }()
+		for attempt := 0; attempt < 3; attempt++ {
+			rn.FetchRace(c.R)
+			if rn.broken {
+				return
+			}
+		}
+	})
+}
+
+func hashesMsg(r *rand.Rand, n int) []byte {
+	hh := make([][]byte, n)
+	for i := range hh {
+		hh[i] = make([]byte, 32)
+		r.Read(hh[i])
+	}
+	return marshal(&prototx.Message{Sum: &prototx.Message_PooledTransactionHashes{PooledTransactionHashes: &prototx.PooledTransactionHashes{Hashes: hh}}})
+}
+
+func (rn *Runner) FetchRace(r *rand.Rand) {
+	e := rn.e
+	const n = 10
+	atomic.StoreInt32(&formatLogs, 1)
+	defer atomic.StoreInt32(&formatLogs, 0)
+	var sess []Msg
+	var peers []*StubPeer
+	for i := 0; i < n; i++ {
+		sess = append(sess, Msg{Ch: tx_pool.TxpoolChannel, Kind: "PooledTransactionHashes", Mut: fmt.Sprintf("peer %d announces 3 unknown hashes, then disconnects 498 ms later (arrival timeout: 500 ms)", i), Level: "valid", Bytes: hashesMsg(r, 3), Subject: true})
+	}
+	big := Msg{Ch: tx_pool.TxpoolChannel, Kind: "PooledTransactionHashes", Mut: "another peer announces 40000 hashes 496 ms later (keeps the fetcher loop busy)", Level: "valid", Bytes: hashesMsg(r, 40000)}
+	sess = append(sess, big)
+	rn.resetChildLog("fetch-race", sess)
+	noise := e.AddPeer(false)
+	t0 := time.Now()
+	for i := 0; i < n; i++ {
+		p := e.AddPeer(false)
+		peers = append(peers, p)
+		e.TxR.Receive(tx_pool.TxpoolChannel, p, sess[i].Bytes)
+		rn.run.Eval(1)
+		rn.run.Count("messages", 1)
+		rn.run.Count("messages:txpool:valid", 1)
+	}
+	time.Sleep(time.Until(t0.Add(496 * time.Millisecond)))
+	go e.TxR.Receive(tx_pool.TxpoolChannel, noise, big.Bytes)
+	time.Sleep(time.Until(t0.Add(498 * time.Millisecond)))
+	var wg sync.WaitGroup
+	for _, p := range peers {
+		wg.Add(1)
+		go func(p *StubPeer) { defer wg.Done(); e.DropPeer(p) }(p)
+	}
+	done := make(chan struct{})
+	go func() { wg.Wait(); close(done) }()
+	select {
+	case <-done:
+	case <-time.After(hangAfter):
+		rn.hang("RemovePeer of announcing peers", "txpool", "PooledTransactionHashes", "c18.(*Env).DropPeer", rn.witness("fetch-race", sess, len(sess)-1, nil))
+		return
+	}
+	time.Sleep(150 * time.Millisecond) // requests to the remaining announcers are scheduled in goroutines
+	rn.run.Count("fetch_race_attempts", 1)
+	rn.run.Count("sessions", 1)
+	e.DropPeer(noise)
+	if !tryLock(e.V.Pool.VerifTryLock) {
+		rn.broken = true
+		rn.c.Violation("mutex-held:txpool:PooledTransactionHashes:TxPool.mu", "TxPool.mu still held", rn.witness("fetch-race", sess, len(sess)-1, nil))
+	}
 }
